@@ -24,7 +24,7 @@ def exhaust(view, tags, clauses, qd=3, td=6):
     drv = {"job": "hqm-job", "core": "hqm-core"}[view]
     extra = ["!panic"] + (["!bad-choice"] if view == "core" else [])
     return {"component": view, "driver": drv, "name": view + "_exhaust", "tags": tags + extra, "clauses": clauses,
-            "quick": {"cases": 1, "shards": 16, "extra": ["--exhaust", str(qd)]},
+            "quick": {"cases": 1, "shards": 16, "extra": ["--exhaust", str(qd)]} if qd else None,
             "thorough": {"cases": 1, "shards": 16, "extra": ["--exhaust", str(td)]}}
 
 def journal(clauses, q=8, t=40):
@@ -39,9 +39,11 @@ def entry(pid, theorems, parts, extra_assumptions=()):
 PROPS = {
     "C01": entry("C01", ["c01_outcome_once", "c01_finish_needs_start", "c01_terminal_is_final", "c01_core_forgets", "c01_core_ignores_unknown",
                          "c01_core_forgets_reachable"],
-                 [job(["ev", "tasks", "job"], ["c01."]), core(["cb", "t"], ["c01.", "core.hyp"])]),
+                 [job(["ev", "tasks", "job"], ["c01."]), core(["cb", "t"], ["c01.", "core.hyp"]),
+                  exhaust("job", ["ev", "tasks", "job"], ["c01."], qd=None)]),
     "C02": entry("C02", ["c02_submit_ids", "c02_auto_ids_agree"],
-                 [job(["core", "live", "resp", "tasks"], ["c02."]), core(["t", "q", "flag"], ["c02."])],
+                 [job(["core", "live", "resp", "tasks"], ["c02."]), core(["t", "q", "flag"], ["c02."]),
+                  exhaust("core", ["t", "q", "flag"], ["c02."], qd=None)],
                  ["progress ('eventually terminal') depends on HiGHS returning an optimal solution and on the fair drain; monitored at rest "
                   "after a fault-free drain of every generated run, not proved"]),
     "C03": entry("C03", ["c03_not_ready_with_deps", "c03_restart", "depClosed_iff", "c03_compute_only_ready", "c03_compute_only_ready_run",
@@ -68,7 +70,8 @@ PROPS = {
     "C06": entry("C06", ["c06_retracting_lost_increments", "c06_inst_never_decreases", "c06_sends_nondecreasing", "c06_sent_le_current",
                          "c06_send_after_start", "c06_lost_worker_increments", "c06_equal_resend_witness", "c06_reuse_witness",
                          "c06_started_unsent_witness", "c06_restart", "c06_restart_emitted", "c06_restart_reuse_witness"],
-                 [core(["msg", "t", "rd", "w"], ["c06.", "core.hyp"]), journal(["c06.restart"])],
+                 [core(["msg", "t", "rd", "w"], ["c06.", "core.hyp"]), journal(["c06.restart"]),
+                  exhaust("core", ["msg", "t", "rd", "w"], ["c06.", "core.hyp"], qd=None)],
                  ["message-level theorems are about what the server SENDS: instance ids sent for one task never decrease (c06_sends_nondecreasing, "
                   "hypothesis NoIdReuse: no task id submitted twice), every send after an announced start carries a larger id "
                   "(c06_send_after_start), every loss of the worker holding a task increments its instance (c06_lost_worker_increments); an EQUAL "
@@ -82,7 +85,8 @@ PROPS = {
                          "c07_crash_counter_mono", "c07_crash_only_running_on_lost", "c07_restart", "c07_restart_emitted", "c07_crashes_step"],
                  [core(["cb", "t", "q", "msg"], ["c07.", "core.hyp"]), job(["ev", "tasks", "job", "ret"], ["c07."]), journal(["c07.restart"])]),
     "C08": entry("C08", ["c08_all_terminal", "c08_idempotent", "c08_other_jobs", "c08_core_forgets", "c08_core_forgets_reachable"],
-                 [job(["ev", "resp", "tasks", "job", "live"], ["c08."]), core(["msg", "t", "w", "q", "rd", "cb"], ["c08.", "core.hyp"])]),
+                 [job(["ev", "resp", "tasks", "job", "live"], ["c08."]), core(["msg", "t", "w", "q", "rd", "cb"], ["c08.", "core.hyp"]),
+                  exhaust("job", ["ev", "resp", "tasks", "job", "live"], ["c08."], qd=None)]),
     "C09": entry("C09", ["c09_open_close_no_panic", "c09_forget_no_panic", "c09_cancel_no_panic"],
                  [job(["ev", "resp", "ret", "core", "job", "tasks", "live"], ["c09."]),
                   core(["msg", "cb", "flag", "t", "w", "q", "rd"], ["c09."]),
